@@ -310,6 +310,8 @@ func mkPEndpoint(key, tag, profs string, labels map[string]string, variant strin
 		v := &model.WorkloadEndpoint{Name: tok(tag), ProfileIDs: csvl(profs), Labels: uniquelabels.Make(labels)}
 		if variant == "noname" {
 			v.Name = ""
+		} else if variant != "ok" && !schemaInvalidWEP(v, variant) {
+			panic("endpoint variant " + variant)
 		}
 		return v
 	}
@@ -404,6 +406,13 @@ func (st *pstate) oracle(h *rt.H) {
 	}
 	applyRaw(fresh, []string{"status", "insync"})
 	fresh.flush()
+	for ep, line := range st.sys.lastLine {
+		if _, ok := st.eps[ep]; !ok && line != ep+" nil" {
+			h.OracleFail("invalid-endpoint-still-programmed",
+				"an endpoint that is absent / fails validation in the datastore is still told to the dataplane (with its policies)",
+				map[string]any{"endpoint": ep, "got": line, "ops": st.history})
+		}
+	}
 	for ep := range st.eps {
 		got, want := st.sys.lastLine[ep], fresh.lastLine[ep]
 		if got == want {
@@ -555,7 +564,7 @@ func genPolOp(h *rt.H) string {
 		variant := "ok"
 		if h.Chance(0.15) {
 			if e[0] == 'w' {
-				variant = "noname"
+				variant = rt.Pick(h, append([]string{"noname"}, wepSchemaVariants...))
 			} else {
 				variant = "badname"
 			}
